@@ -49,6 +49,16 @@ class CleanPass(FunctionPass):
             if block in predecessors:
                 continue
 
+            # Do not remove when a predecessor already jumps to a successor
+            # with phi nodes as well: a phi has one value per incoming
+            # block, and can not tell the two edges apart.
+            if any(
+                successor.phis
+                and any(p in successor.predecessors for p in predecessors)
+                for successor in successors
+            ):
+                continue
+
             # Update successor incoming blocks:
             for successor in successors:
                 successor.replace_incoming(block, predecessors)
@@ -101,6 +111,13 @@ class CleanPass(FunctionPass):
             "Inserting %s at the end of %s", block2.name, block1.name
         )
 
+        # Block2 has block1 as only predecessor, so its phi nodes have a
+        # single value. Use this value directly, a phi may not end up in
+        # the middle of block1:
+        for phi in block2.phis:
+            phi.replace_by(phi.get_value(block1))
+            phi.remove_from_block()
+
         # Remove the last jump:
         last_jump = block1.last_instruction
         block1.remove_instruction(last_jump)
@@ -110,8 +127,13 @@ class CleanPass(FunctionPass):
         for instruction in block2:
             block1.add_instruction(instruction)
 
-        # Replace incoming info:
+        # Replace incoming info (both targets of a conditional jump can be
+        # the same block, visit it once):
+        successors = []
         for successor in block2.successors:
+            if successor not in successors:
+                successors.append(successor)
+        for successor in successors:
             successor.replace_incoming(block2, [block1])
 
         # Remove block from function:
